@@ -1,3 +1,156 @@
-use crate::world::{World, R};
-use serde_json::Value;
-pub fn exec(_w: &mut World, name: &str, _op: &Value) -> R<Value> { Err(format!("unknown op {name}")) }
+//! Entry points that exist only for C20 (SM4 construction / block / mode calls, the SM9
+//! hash-to-range helper, the SM2 KDF and ZA helpers). Oracle: the call ends in Ok or Err.
+
+use crate::libglue as glue;
+use crate::simrng::{run_lib_norng, Class, Outcome};
+use crate::world::{fnv, gs, gs_opt, gu, World, R};
+use gm_sm4::{CipherMode, Sm4Cipher, Sm4CipherMode};
+use serde_json::{json, Value};
+
+pub fn exec(w: &mut World, name: &str, op: &Value) -> R<Value> {
+    match name {
+        "entry.sm4.new" => sm4_new(w, op),
+        "entry.sm4.block" => sm4_block(w, op),
+        "entry.sm4.mode" => sm4_mode(w, op),
+        "entry.sm9.mod_n_from_hash" => mod_n_from_hash(w, op),
+        "entry.sm2.kdf" => sm2_kdf(w, op),
+        "entry.sm2.compute_za" => sm2_za(w, op),
+        _ => Err(format!("unknown op {name}")),
+    }
+}
+
+fn class_of<T, E>(o: &Outcome<Result<T, E>>) -> Class {
+    match o {
+        Outcome::Done(Ok(_)) => Class::Ok,
+        Outcome::Done(Err(_)) => Class::Err,
+        Outcome::Panic(_) => Class::Panic,
+        Outcome::Hang => Class::Hang,
+    }
+}
+
+fn len_class(n: usize, exact: usize) -> String {
+    if n < exact {
+        format!("len<{exact}")
+    } else if n == exact {
+        format!("len={exact}")
+    } else {
+        format!("len>{exact}")
+    }
+}
+
+fn sm4_new(w: &mut World, op: &Value) -> R<Value> {
+    let key = w.slot_of(op, "key")?;
+    w.bump("call.sm4.cipher_new");
+    let out = run_lib_norng(|| Sm4Cipher::new(&key).map(|_| ()));
+    let class = class_of(&out);
+    let case = fnv(&[b"sm4new", &key]);
+    w.check_class(&["C20"], "sm4.cipher_new", &class, &format!("key.{}", len_class(key.len(), 16)), case, "");
+    Ok(json!({"class": class.as_str()}))
+}
+
+fn sm4_block(w: &mut World, op: &Value) -> R<Value> {
+    let key = w.slot_of(op, "key")?;
+    let data = w.slot_of(op, "data")?;
+    let dec = gs(op, "dir")? == "decrypt";
+    if key.len() != 16 {
+        return Err("sm4.block: key must be 16 bytes".into());
+    }
+    w.bump(if dec { "call.sm4.block_decrypt" } else { "call.sm4.block_encrypt" });
+    let out = run_lib_norng(|| {
+        let c = Sm4Cipher::new(&key).map_err(|_| ())?;
+        if dec { c.decrypt(&data) } else { c.encrypt(&data) }.map(|_| ()).map_err(|_| ())
+    });
+    let class = class_of(&out);
+    let case = fnv(&[b"sm4block", &key, &data, &[dec as u8]]);
+    let entry = if dec { "sm4.block_decrypt" } else { "sm4.block_encrypt" };
+    w.check_class(&["C20"], entry, &class, &format!("block.{}", len_class(data.len(), 16)), case, "");
+    Ok(json!({"class": class.as_str()}))
+}
+
+fn sm4_mode(w: &mut World, op: &Value) -> R<Value> {
+    let key = w.slot_of(op, "key")?;
+    let data = w.slot_of(op, "data")?;
+    let iv = w.slot_of(op, "iv")?;
+    let mode = gs(op, "mode")?.to_string();
+    let dec = gs(op, "dir")? == "decrypt";
+    let mk = |m: &str| match m {
+        "cfb" => CipherMode::Cfb,
+        "ofb" => CipherMode::Ofb,
+        "ctr" => CipherMode::Ctr,
+        _ => CipherMode::Cbc,
+    };
+    w.bump(&format!("call.sm4.{mode}_{}", if dec { "decrypt" } else { "encrypt" }));
+    let out = run_lib_norng(|| {
+        let c = Sm4CipherMode::new(&key, mk(&mode)).map_err(|_| ())?;
+        if dec { c.decrypt(&data, &iv) } else { c.encrypt(&data, &iv) }.map_err(|_| ())
+    });
+    let class = class_of(&out);
+    if let (Outcome::Done(Ok(v)), Some(o)) = (&out, gs_opt(op, "out")) {
+        w.put(o, v.clone());
+    }
+    let case = fnv(&[b"sm4mode", mode.as_bytes(), &key, &data, &iv, &[dec as u8]]);
+    let dclass = if data.is_empty() {
+        "data.len=0".to_string()
+    } else if data.len() % 16 == 0 {
+        "data.len=16k".to_string()
+    } else {
+        "data.len!=16k".to_string()
+    };
+    let ic = format!("key.{},iv.{},{}", len_class(key.len(), 16), len_class(iv.len(), 16), dclass);
+    let entry = format!("sm4.{mode}_{}", if dec { "decrypt" } else { "encrypt" });
+    w.check_class(&["C20"], &entry, &class, &ic, case, "");
+    Ok(json!({"class": class.as_str()}))
+}
+
+fn mod_n_from_hash(w: &mut World, op: &Value) -> R<Value> {
+    let data = w.slot_of(op, "data")?;
+    w.bump("call.sm9.mod_n_from_hash");
+    let out = run_lib_norng(|| Ok::<_, ()>(gm_sm9::fields::mod_n_from_hash(&data)));
+    let class = class_of(&out);
+    let case = fnv(&[b"modn", &data]);
+    w.check_class(&["C20"], "sm9.mod_n_from_hash", &class, &format!("ha.{}", len_class(data.len(), 40)), case, "");
+    Ok(json!({"class": class.as_str()}))
+}
+
+fn sm2_kdf(w: &mut World, op: &Value) -> R<Value> {
+    let z = w.slot_of(op, "z")?;
+    let klen = gu(op, "klen")? as usize;
+    w.bump("call.sm2.kdf");
+    let out = run_lib_norng(|| Ok::<_, ()>(gm_sm2::util::kdf(&z, klen)));
+    let class = class_of(&out);
+    let case = fnv(&[b"kdf", &z, &(klen as u64).to_le_bytes()]);
+    w.check_class(&["C20"], "sm2.kdf", &class, if klen == 0 { "klen=0" } else { "klen>0" }, case, "");
+    if let Outcome::Done(Ok(v)) = &out {
+        if klen > 0 {
+            // the KDF clause of C05 rides along: exactly the first klen bytes of the hash chain
+            let want = crate::refmodel::sm3::kdf(&z, klen);
+            let key = json!({"entry":"sm2.kdf","class":"klen>0","outcome":"Ok"});
+            w.check("C05", "kdf-exact", v == &want, case, key, || format!("kdf(z, {klen}) differs from SM3(Z||1)||SM3(Z||2)|| ... truncated to klen"));
+        }
+    }
+    Ok(json!({"class": class.as_str()}))
+}
+
+fn sm2_za(w: &mut World, op: &Value) -> R<Value> {
+    let id = w.slot_of(op, "id")?;
+    let pk = w.slot_of(op, "pk")?;
+    let via = gs_opt(op, "pk_via").unwrap_or("struct");
+    let ids = match String::from_utf8(id.clone()) {
+        Ok(s) => s,
+        Err(_) => return Ok(json!({"skipped":"id not utf-8"})),
+    };
+    let point = match via {
+        "inf" => glue::sm2_point_infinity(),
+        _ => match glue::sm2_point_from_wire_unchecked(&pk) {
+            Some(p) => p,
+            None => return Ok(json!({"skipped":"pk wire not 65 bytes"})),
+        },
+    };
+    w.bump("call.sm2.compute_za");
+    let out = run_lib_norng(|| gm_sm2::util::compute_za(&ids, &point).map(|_| ()));
+    let class = class_of(&out);
+    let case = fnv(&[b"za", &id, &pk, via.as_bytes()]);
+    let ic = if id.len() > 8191 { "id.len>8191" } else { "id.len<=8191" };
+    w.check_class(&["C20"], "sm2.compute_za", &class, ic, case, "");
+    Ok(json!({"class": class.as_str()}))
+}
